@@ -1,9 +1,9 @@
 SPECIFICATION Spec
-CONSTANTS Consts = {a, b, c}
- MaxOps = 4
+CONSTANTS Consts = {"a", "b", "c"}
+ MaxOps = 6
  Queries = FALSE
- EmitAll = TRUE
-SYMMETRY Symm
+ EmitAll = FALSE
+
 INVARIANT TestCorrect
 INVARIANT ExplainCorrect
 INVARIANT QueryCorrect
